@@ -31,6 +31,19 @@ func genC12(d *RunDesc, tier string) {
 		if class == "valid" && (wl.chance(1, 2) || tier == "thorough") {
 			ops = append(ops, Op{K: "flt", Obj: &Ref{I: slot}, Sweep: true})
 		}
+		if wl.chance(1, 3) {
+			// decode again on the same receiver (a decoder obtained from a constructor
+			// stays one after its first use): whatever the outcome, it must again be
+			// a usable object XOR an error
+			v2, class2, _ := genVector(wl, k, false)
+			if wl.chance(1, 2) {
+				v2, _ = genValidVector(wl, k)
+				class2 = "valid"
+			}
+			ops = append(ops, Op{K: "redec", Obj: &Ref{I: slot}, Vec: v2, Class: class2})
+			ops = append(ops, Op{K: "obs", Obj: &Ref{I: slot}, LB: true, Obs: "all"})
+			ops = append(ops, Op{K: "obs", Obj: &Ref{I: slot}, Obs: "all"})
+		}
 		slot++
 	}
 	d.Tasks = [][]Op{ops}
@@ -204,7 +217,7 @@ func runC12(d *RunDesc, res *RunResult) {
 		for i := range d.Tasks[0] {
 			op := &d.Tasks[0][i]
 			cc.op = i
-			if op.K != "dec" {
+			if op.K != "dec" && op.K != "redec" {
 				ctx.tick(op)
 			}
 			switch op.K {
@@ -262,6 +275,44 @@ func runC12(d *RunDesc, res *RunResult) {
 					res.Stats.count("decfail:" + errSentinels(s.err))
 				}
 				cc.caseKey("dec|" + op.Vec + "|" + strconv.Itoa(op.Kind) + "|" + strconv.FormatBool(op.NilRecv))
+			case "redec":
+				sl := ctx.slot(op.Obj)
+				if sl == nil || isNilObj(sl.current()) {
+					break
+				}
+				first := sl.vec
+				r := ctx.execOp(op)
+				what := fmt.Sprintf("%s: Decode(%s) on a receiver that had already decoded %s", kindNames[sl.kind], strconv.Quote(clip(op.Vec, 200)), strconv.Quote(clip(first, 200)))
+				if isPanic(r) {
+					res.addViolation("panic:dec:"+panicFrame(r), what+": "+r, 0, i)
+					break
+				}
+				if r == "skip" {
+					break
+				}
+				res.Stats.count("redecodes")
+				hasObj := !isNilObj(sl.res)
+				switch {
+				case hasObj && sl.err != nil:
+					res.addViolation("both:"+kindNames[sl.kind], what+": returned an object and error "+errClass(sl.err), 0, i)
+				case !hasObj && sl.err == nil:
+					res.addViolation("neither:"+kindNames[sl.kind], what+": returned neither object nor error", 0, i)
+				case hasObj:
+					res.Stats.count("redecodes-accepted")
+					rr := guard(func() string {
+						m := asMetrics(sl.res)
+						if err := m.GetError(); err != nil {
+							res.addViolation("unusable:"+kindNames[sl.kind]+".GetError", what+": returned an object and no error, but the object reports "+errClass(err), 0, i)
+						}
+						if _, err := m.Encode(); err != nil {
+							res.addViolation("unusable:"+kindNames[sl.kind]+".Encode", what+": returned an object and no error, but the object cannot be encoded: "+errClass(err), 0, i)
+						}
+						return ""
+					})
+					if isPanic(rr) {
+						res.addViolation("panic:query:"+panicFrame(rr), what+": "+rr, 0, i)
+					}
+				}
 			case "obs":
 				p, _, ok := ctx.operand(op)
 				if !ok {
